@@ -14,6 +14,7 @@ From RPCX Require Pool.Pool.
 From RPCX Require Server.Ingress.
 From RPCX Require Server.Shutdown.
 From RPCX Require Wire.Shared.
+From RPCX Require E2E.Path.
 Extraction Language OCaml.
 Extraction "model.ml"
   RoundRobin.rr_new RoundRobin.rr_run
@@ -35,4 +36,5 @@ Extraction "model.ml"
   Pool.find_get Pool.find_put Pool.class_size Pool.last_class
   Ingress.serve
   Shutdown.step Shutdown.init Shutdown.run Shutdown.writes Shutdown.is_open
-  Shared.wrun.
+  Shared.wrun
+  Path.client_req Path.server_res Path.handler_view Path.caller_view.
